@@ -193,6 +193,17 @@ func runVCCase(wt *watch, c *VCCase, idx int) Event {
 	}
 	src := []byte(sb.String())
 	env := envFor(s, src)
+	if c.Place.Level == 4 {
+		// a second file whose block (with a count) spans the byte offsets of everything in t.tf
+		s.Blocks["e"] = &schema.BlockSchema{
+			Labels:  []*schema.LabelSchema{{Name: "name"}},
+			Address: &schema.BlockAddrSchema{Steps: schema.Address{schema.StaticStep{Name: "e"}, schema.LabelStep{Index: 0}}, ScopeId: "eblk", AsReference: true},
+			Body: &schema.BodySchema{Extensions: &schema.BodyExtensions{Count: true}, Attributes: map[string]*schema.AttributeSchema{
+				"pad": {IsOptional: true, Constraint: schema.LiteralType{Type: cty.String}}}},
+		}
+		other := "e \"blk\" {\n  count = 4\n  pad = \"" + strings.Repeat("x", 2*len(src)+64) + "\"\n}\n"
+		env.R.Ctxs["p1"].Files["u.tf"] = parseFile("u.tf", []byte(other))
+	}
 	env.R.Ctxs["p1"].Functions = vcFuncs()
 	env.Recollect(wt, "p1")
 	types := map[string]cty.Type{}
